@@ -62,13 +62,23 @@ def run(idx: Index, rep: Report, tier: str) -> None:
     rule2 = "C13.2 T1 bound-variables-respected"
     pw = idx.func("model.walkers.substituter.Substituter._push_with_children_to_stack")
     rep.note_function(pw.qualname)
-    txt_calls = {call_name(c) for c in walk_no_nested(pw.node) if isinstance(c, ast.Call)}
+    # the quantifier handling may be split over private helpers of the Substituter that this method calls
+    _subst_cls = idx.cls("model.walkers.substituter.Substituter")
+    _helpers = [_subst_cls.methods[c.func.attr] for c in walk_no_nested(pw.node) if isinstance(c, ast.Call) and isinstance(c.func, ast.Attribute) and norm(c.func.value) == "self" and c.func.attr.startswith("_") and c.func.attr in _subst_cls.methods and c.func.attr != pw.node.name]
+    _helper_names = {h.node.name for h in _helpers}
+
+    def _scope():
+        yield from walk_no_nested(pw.node)
+        for h in _helpers:
+            yield from walk_no_nested(h.node)
+
+    txt_calls = {call_name(c) for c in _scope() if isinstance(c, ast.Call)}
     tests = [i for i in walk_no_nested(pw.node) if isinstance(i, ast.If) and ("is_exists" in norm(i.test) or "is_forall" in norm(i.test))]
     ok = bool(tests) and "is_exists" in norm(tests[0].test) and "is_forall" in norm(tests[0].test)
     rep.check(ok, rule2, "both quantifiers are special-cased", pw.loc(tests[0]) if tests else pw.loc(), construct=norm(tests[0].test) if tests else "", detail="" if ok else "a quantifier is traversed like an ordinary node: keys containing its bound variables are replaced inside it", function=pw.qualname)
     rep.check("variables" in txt_calls, rule2, "consults the quantifier's bound variables", pw.loc(), construct="expression.variables()", detail="" if "variables" in txt_calls else "bound variables are never read", function=pw.qualname)
     rep.check("get_free_variables" in txt_calls, rule2, "consults the free variables of each key", pw.loc(), construct="free_vars_oracle.get_free_variables(k)", detail="" if "get_free_variables" in txt_calls else "the variables occurring in a key are never read", function=pw.qualname)
-    alls = [c for c in walk_no_nested(pw.node) if isinstance(c, ast.Call) and call_name(c) == "all" and c.args and isinstance(c.args[0], ast.GeneratorExp)]
+    alls = [c for c in _scope() if isinstance(c, ast.Call) and call_name(c) == "all" and c.args and isinstance(c.args[0], ast.GeneratorExp)]
     ok = False
     for c in alls:
         g = c.args[0]
@@ -82,7 +92,9 @@ def run(idx: Index, rep: Report, tier: str) -> None:
         v = norm(fresh[0].targets[0])
         calls = [c for c in walk_no_nested(pw.node) if isinstance(c, ast.Call) and call_name(c) == "substitute" and norm(c.func.value) == v]
         # the reduced map: the dictionary filled under the `all(v not in bound …)` test
-        reduced = {norm(a.targets[0].value) for i in walk_no_nested(pw.node) if isinstance(i, ast.If) and any(x in alls for x in ast.walk(i.test)) for st in i.body for a in ast.walk(st) if isinstance(a, ast.Assign) and isinstance(a.targets[0], ast.Subscript)}
+        reduced = {norm(a.targets[0].value) for i in _scope() if isinstance(i, ast.If) and any(x in alls for x in ast.walk(i.test)) for st in i.body for a in ast.walk(st) if isinstance(a, ast.Assign) and isinstance(a.targets[0], ast.Subscript)}
+        # … or the result of the helper that does the filtering
+        reduced |= {norm(a.targets[0]) for a in walk_no_nested(pw.node) if isinstance(a, ast.Assign) and len(a.targets) == 1 and isinstance(a.value, ast.Call) and isinstance(a.value.func, ast.Attribute) and a.value.func.attr in _helper_names and any(x in alls for h in _helpers if h.node.name == a.value.func.attr for x in ast.walk(h.node))}
         ok = bool(calls) and bool(reduced) and all(len(c.args) == 2 and norm(c.args[0]) == "expression.arg(0)" and norm(c.args[1]) in reduced for c in calls)
         rep.check(ok, rule2, "the body is substituted under the reduced map", pw.loc(calls[0]) if calls else pw.loc(), construct=norm(calls[0]) if calls else "", detail="" if ok else "the quantifier body is not rewritten with the reduced map", function=pw.qualname)
 
